@@ -17,7 +17,7 @@ use neurons::tensor::Tensor;
 pub fn meta(_ctx: &Ctx) -> Meta {
     Meta {
         rule: "ALL (N,B,E) with N in 1..6, B in 1..7 (B=1, B not dividing N, B=N, B>N), E in 1..3, plus a 1024->64->2 network with (N,B) in {(32,32),(40,32),(150,32),(70,64)}, plus (N,B) in {(64,64),(65,64),(65,65),(70,128),(130,65),(130,100),(129,64)} x networks {dense-linear on one-hot inputs (sample i touches column i only), dense+bias tanh -> dense, conv -> dense, dense -> feedback[dense]x2 -> dense} x optimizers {SGD, SGDM, Adam, RMSprop} x objectives {MSE, AE}; batch sizes usize::MAX, usize::MAX-1, usize::MAX/2+1; a group whose only sample has an exactly zero loss and gradient; pairwise different samples; also two consecutive learn() calls on the same network (16 settings x 4 phase pairs). Oracle: reference trainer (consecutive groups in order, per-sample gradients at the pre-step weights summed, one optimizer step per group with step number = epoch, loss = mean over groups of mean per-sample loss) vs learn()'s final weights and returned loss vector. A state is the weight vector after each optimizer step; non-trivial = runs with >= 2 groups or >= 2 samples per group".into(),
-        bound: "N <= 6, B <= 7, E <= 3 (thorough: N <= 9, B <= 10, E <= 4); complete product".into(),
+        bound: "N <= 6, B <= 7, E <= 3 (thorough: N <= 16, B <= 17, E <= 6, and every pair of learn() calls with N in {3,5,6}, B, B2 in 1..4, E, E2 in 1..2); complete product".into(),
         exhaustive: true,
         assumptions: vec![
             "per-sample gradients come from the library's own passes (C01 decides them); the separately created optimizer is the library's (C03 decides it): this check isolates grouping, order, sum-vs-mean, remainder group, step numbers and loss averaging".into(),
@@ -375,7 +375,7 @@ pub fn check(seed: u64, case: &Kv, rep: &mut Report) {
 }
 
 pub fn cases(thorough: bool) -> Vec<Kv> {
-    let (nmax, bmax, emax) = if thorough { (9usize, 10usize, 4usize) } else { (6usize, 7usize, 3usize) };
+    let (nmax, bmax, emax) = if thorough { (16usize, 17usize, 6usize) } else { (6usize, 7usize, 3usize) };
     let mut out = Vec::new();
     for (name, _) in nets() {
         if name == "wide" {
@@ -384,6 +384,9 @@ pub fn cases(thorough: bool) -> Vec<Kv> {
         for ospec in opts() {
             for o in [Obj::MSE, Obj::AE] {
                 for n in 1..=nmax {
+                    if name == "onehot" && n > 9 {
+                        continue; // sample i is the i-th unit vector of a 9-dimensional input
+                    }
                     for b in 1..=bmax {
                         for e in 1..=emax {
                             out.push(Kv::new().put("net", name).put("opt", ospec.name()).put("obj", o.name()).put("n", n).put("b", b).put("e", e));
@@ -400,7 +403,21 @@ pub fn cases(thorough: bool) -> Vec<Kv> {
             continue;
         }
         for ospec in opts() {
-            for (n, b, e, b2, e2) in [(5usize, 2usize, 1usize, 3usize, 2usize), (4, 4, 2, 1, 1), (3, 2, 2, 2, 2), (6, 7, 1, 4, 1)] {
+            let mut seqs: Vec<(usize, usize, usize, usize, usize)> = vec![(5, 2, 1, 3, 2), (4, 4, 2, 1, 1), (3, 2, 2, 2, 2), (6, 7, 1, 4, 1)];
+            if thorough {
+                for n in [3usize, 5, 6] {
+                    for b in 1..=4usize {
+                        for e in 1..=2usize {
+                            for b2 in 1..=4usize {
+                                for e2 in 1..=2usize {
+                                    seqs.push((n, b, e, b2, e2));
+                                }
+                            }
+                        }
+                    }
+                }
+            }
+            for (n, b, e, b2, e2) in seqs {
                 out.push(Kv::new().put("net", name).put("opt", ospec.name()).put("obj", "MSE").put("n", n).put("b", b).put("e", e).put("b2", b2).put("e2", e2));
             }
         }
